@@ -79,7 +79,7 @@ def shape_flags(prog):
     """Syntactic shape predicates used in known-finding keys (see known_findings.jsonl)."""
     flags = set()
 
-    def walk(x, top_loop, top_if, in_fun):
+    def walk(x, top_loop, top_if, in_fun, in_gen=False):
         if isinstance(x, dict):
             e = x.get("e")
             if e in ("while", "for", "forin") and not in_fun:
@@ -95,13 +95,17 @@ def shape_flags(prog):
                 flags.add("exit-in-exit-condition")
             if e == "list" and len(x.get("args", [])) == 1 and x["args"][0].get("e") == "if":
                 flags.add("singleton-bracket-if")
+            if e == "try" and in_gen:
+                flags.add("try-in-generator")
+            if e == "gen":
+                in_gen = True
             if e in ("lam", "gen"):
                 in_fun = True
             for v in x.values():
-                walk(v, top_loop, top_if, in_fun)
+                walk(v, top_loop, top_if, in_fun, in_gen)
         elif isinstance(x, list):
             for v in x:
-                walk(v, top_loop, top_if, in_fun)
+                walk(v, top_loop, top_if, in_fun, in_gen)
 
     def has_exit(x):
         if isinstance(x, dict):
